@@ -25,7 +25,11 @@ def main():
     try:
         for p in props:
             t0 = time.time()
-            q = subprocess.run([os.path.join(VERIF, "vcheck"), p, "--tier", "quick"], cwd=VERIF, stdout=subprocess.PIPE, stderr=subprocess.DEVNULL)
+            try:
+                q = subprocess.run([os.path.join(VERIF, "vcheck"), p, "--tier", "quick"], cwd=VERIF, stdout=subprocess.PIPE, stderr=subprocess.DEVNULL, timeout=2400)
+            except subprocess.TimeoutExpired:
+                print("%s TIMEOUT  %5.1fs" % (p, time.time() - t0), flush=True)
+                continue
             out = q.stdout.decode()
             lines = [l for l in out.split("\n") if l.startswith(("VIOLATION", "OK ", "KNOWN-FINDING"))]
             verdict = "DETECTED" if q.returncode == 1 and any(l.startswith("VIOLATION") for l in lines) else ("quiet" if q.returncode == 0 else "rc=%d" % q.returncode)
